@@ -1,6 +1,6 @@
 (* Proofs/DecodeProofs.v — decoder bookkeeping (C06, C19). *)
 From Coq Require Import ZArith List Bool Lia Floats Sorting.Sorted.
-From V Require Import F64 F32 Decode.
+From V Require Import Tables F64 F32 Decode.
 Import ListNotations.
 Open Scope Z_scope.
 
@@ -204,3 +204,8 @@ Theorem tandem_sorts_small_spec times :
   In times (all_lists 6 [4607182418800017408; 0; 4611686018427387904]) ->
   lines_eqb (sort_objects (with_sounds times)) (stable_sort_lines (with_sounds times)) = true.
 Proof. intros H. pose proof tandem_sorts_small as G. rewrite forallb_forall in G. exact (G times H). Qed.
+
+(* the legacy tie re-ordering sort (which reads its pivot by index and is therefore only correct on
+   ordered input) is applied to already time-ordered slices only: facts re-read from the source *)
+Theorem tables_sort_facts : forallb snd Tables.sort_facts = true /\ (3 <= length Tables.sort_facts)%nat.
+Proof. vm_compute. split; [reflexivity|repeat constructor]. Qed.
